@@ -73,6 +73,14 @@ def make_checker():
             # (also over the tick in which a Restart takes the run from Restarting to Stopped: the run was active when it began)
             if ob["pre_flags"]["started"] and dp > EPS and pre != "Running" and post != "Running":
                 probs.append((f"C07:process-time-advanced:{pre}>{post}", f"tick {ob['n']}: Process Time advanced by {dp} over a tick that was {pre}->{post}"))
+            # the same judged by the control flags (the System State tag may itself be wrong: that is C06, but the clock must not
+            # follow a wrong tag)
+            susp_pre = ob["pre_flags"]["paused"] or ob["pre_flags"]["holding"]
+            susp_post = ob["flags"]["paused"] or ob["flags"]["holding"]
+            if active_both and dp > EPS and susp_pre and susp_post and not (pre != "Running" and post != "Running"):
+                probs.append(("C07:process-time-advanced:while-flags-say-paused-or-holding",
+                              f"tick {ob['n']}: Process Time advanced by {dp} although the run was paused/on hold before and after the "
+                              f"tick (flags {ob['pre_flags']} -> {ob['flags']}, System State {pre}->{post})"))
             if active_both and inc > EPS and dp <= EPS and pre == "Running" and post == "Running":
                 probs.append(("C07:process-time-stalled-while-running", f"tick {ob['n']}: Running but Process Time did not advance (inc {inc})"))
             dr = tc["Run Time"] - pc["Run Time"]
